@@ -88,10 +88,18 @@ class argument_interpreter:
                 )
                 % (self.argument_description, arg, e.__class__.__name__, e)
             )
+        def target_locators():
+            # one entry per parameter: further occurrences of a .multiple
+            # definition share the path of the first
+            seen = set()
+            for object_locator in self.master_phil.all_definitions():
+                if object_locator.path not in seen:
+                    seen.add(object_locator.path)
+                    yield object_locator
+
         if self.target_paths is None:
             self.target_paths = [
-                object_locator.path
-                for object_locator in self.master_phil.all_definitions()
+                object_locator.path for object_locator in target_locators()
             ]
 
         def recursive_expert_level(phil_obj):
@@ -114,7 +122,7 @@ class argument_interpreter:
 
         expert_level = [
             recursive_expert_level(object_locator)
-            for object_locator in self.master_phil.all_definitions()
+            for object_locator in target_locators()
         ]
 
         source_definitions = params.all_definitions()
